@@ -13,9 +13,12 @@ import ICal.Driver.Encode
 import ICal.Driver.Zoned
 import ICal.Driver.Bodies
 import ICal.Driver.BodiesParser
+import ICal.Driver.BodiesLine
+import ICal.Driver.BodiesFold
+import ICal.Driver.BodiesText
 open ICal.Driver
 
-def handlers : List (String → List String → Option String) := [handleText, handleFold, handleLine, handleTree, handleStartEnd, handleCodec, handleCDict, handleWalk, handleTz, handleAlarm, handleRecur, handleEncode, handleZoned, handleBodies, handleBodiesParser]
+def handlers : List (String → List String → Option String) := [handleText, handleFold, handleLine, handleTree, handleStartEnd, handleCodec, handleCDict, handleWalk, handleTz, handleAlarm, handleRecur, handleEncode, handleZoned, handleBodies, handleBodiesParser, handleBodiesLine, handleBodiesFold, handleBodiesText]
 
 def step (line : String) : String :=
   let l := line.dropRightWhile (fun c => c == (Char.ofNat 10) || c == (Char.ofNat 13))
